@@ -27,19 +27,33 @@ Positive hygiene (section "Hygiene, positive part"; induction over the model's o
                         recursion, fixed point), no guard: template binders are never spelled like user identifiers
   * `template_free_ids_resolve_globally` : under `G.a` a template's free identifier is instantiated unchanged, still
                         flagged `unresolved`, and resolves to the definition-site global
-  * `G_iff`            : `G` = conjunction of the six negated class predicates (K13a, b, c, d, f, g)
-STILL NOT proved: `hygiene_partial : G prog → expandM prog ≈α expandS prog` (statement kept: `HygienePartial`).
-Missing for it: (1) agreement of M's matcher/instantiator with the R7RS one (`specMatch`/`specInst`) on arbitrary
-templates (only the pattern-as-template case is proved, `match_exact`); (2) the simulation between the `##`-names
-of SEVERAL template instances and S's per-step stamps under `G.b` (one `##x` per spelling vs one stamp per step);
-(3) the scoping argument that under `G.d` every `##x` occurrence lies in the scope of its instance's binder.
-What the theorems above give towards it: user identifiers vs template binders (all programs), template free
-identifiers vs use-site binders (one step, under `G.a`).  Inside `G` the full statement is checked by the
-differential run (any real ≠ S there is a VIOLATION).
+  * `scoping_under_Gd` : under `G.d` every `##`-name free in a stored template (lexical scoping) is a mangled pattern
+                        variable: a template-introduced `##x` only occurs in the scope of a binder `##x`
+  * `G_iff`            : `G` = conjunction of the seven negated class predicates (K13a, b, c, d, f, g, j)
+Agreement with the R7RS matcher / instantiator (section "Agreement of steel's matcher / instantiator …"):
+  * `match_spec`       : for EVERY well-formed pattern list (any nesting, one ellipsis per list over any
+                        sub-pattern, dotted tails) steel's match + collect succeed ⇒ `specMatchList` succeeds with the same
+                        bindings (steel's nested lists = `BTree.flat` of the binding trees)
+  * `instantiate_agree`, `instantiate_spec_partial` : on templates of the fragment `okT` (any nesting, improper lists,
+                        `x ...` splices, at most one ellipsis per list) steel's `visit` and `specInst` agree up to
+                        the expander flags whenever both succeed
+  * `not_hygiene_j`    : outside that fragment the real code deviates: a template list with two ellipses (K13j)
+STILL NOT proved: `hygiene_partial : G prog → expandM prog ≈α expandS prog` (statement kept: `HygienePartial`), and
+the full `InstantiateSpec`.  Missing: (1) instantiator agreement for
+sub-templates followed by an ellipsis (`(k v) ...`: `findWidth` / `iterEnv` vs the drivers of `specInst`, plus the
+fact that `visit` re-visits what it spliced) and the success direction (M ok ⇒ S ok); (2) the correspondence between
+the stored template (`##a`, `##tmp`, flags) and the stamped written template of S, and the `canon` simulation for
+ONE instance (single-level hygiene); (3) the simulation between the `##`-names of SEVERAL template instances and
+S's per-step stamps under `G.b`.  (The scoping argument under `G.d` is proved: `scoping_under_Gd`.)
+What the theorems give towards it: user identifiers vs template binders (all programs, no guard), template free
+identifiers vs use-site binders (one step, under `G.a`), and M = S for matching and for instantiating `okT`
+templates.  Inside `G` the full statement is checked by the differential run (any real ≠ S there is a VIOLATION).
 -/
 import SteelVerif.C13.LemmasComplete
 import SteelVerif.C13.LemmasFuel
 import SteelVerif.C13.LemmasHygiene7
+import SteelVerif.C13.LemmasSpec4
+import SteelVerif.C13.LemmasScope4
 import SteelVerif.C12.Lex
 namespace SteelVerif.C13
 set_option linter.unusedSimpArgs false
@@ -353,11 +367,12 @@ theorem reader_rejects_double_hash (pos : Nat) (cs : List Char) :
     (SteelVerif.C12.lexOne pos '#' ('#' :: cs)).res = .error (.unexpectedChar '#') := by
   simp [SteelVerif.C12.lexOne]
 
-/-- The guard `G` is the conjunction of the six negated class predicates (K13a, b, c, d, f, g). -/
+/-- The guard `G` is the conjunction of the seven negated class predicates (K13a, b, c, d, f, g, j). -/
 theorem G_iff (fuel : Nat) (p : Prog) : G fuel p = true ↔ (classify fuel p).inG := by
-  simp only [G, Flags.none, Flags.inG, Flags.Ga, Flags.Gb, Flags.Gc, Flags.Gd, Flags.Gf, Flags.Gg]
+  simp only [G, Flags.none, Flags.inG, Flags.Ga, Flags.Gb, Flags.Gc, Flags.Gd, Flags.Gf, Flags.Gg, Flags.Gj]
   cases (classify fuel p).a <;> cases (classify fuel p).b <;> cases (classify fuel p).c <;>
-    cases (classify fuel p).d <;> cases (classify fuel p).f <;> cases (classify fuel p).g <;> simp
+    cases (classify fuel p).d <;> cases (classify fuel p).f <;> cases (classify fuel p).g <;>
+    cases (classify fuel p).j <;> simp
 
 /-- `introduced_binders_fresh` (binder hygiene, definition side): for every case compiled from a template as the
 reader produces it, every binder position of the stored template (`define` / `lambda` parameters, `let` and named
@@ -506,6 +521,93 @@ theorem hygiene_user_binders_src (fuel : Nat) (p : Prog) (out : List Sexp) (fl :
       | true => have := (hst mac hmac cs hcs a ha).1 hi; omega
     · omega
 
+/-- `scoping_under_Gd` (the scoping argument under the conjunct `G.d`): steel's definition-time renaming keeps ONE
+unscoped list of introduced spellings (`introduced_identifiers`), so in general a `##x` can end up outside the
+scope of every binder `##x` (finding K13d, `not_hygiene_d`).  When flag `d` is not raised for a case compiled from
+a template as the reader produces it, every `##`-name that occurs in the stored template outside the scope of every
+binder of its spelling (`freeOcc`: lexical scoping of `lambda`, `let`, named `let`, `define`) is a mangled pattern
+variable — i.e. every occurrence of a template-introduced `##x` lies in the scope of a binder `##x` of the same
+template instance.  (Alignment of `renT`, one traversal with growing state, with `freeOcc`, lexical scopes; all
+templates, all nesting, fuel as used by `compileCase`.) -/
+theorem scoping_under_Gd (name : Name) (lits : List Name) (pattern body : Sexp) (cs : MacroCase)
+    (hc : compileCase name lits pattern body = .ok cs) (hsrc : srcForm body) (hd : cs.sflags.Gd) :
+    ∀ n ∈ freeOcc (2 * body.size + 2) [] cs.body, 1 ≤ n.hashes → ∃ s, n = s.hash ∧ s ∈ cs.depths.map (·.1) :=
+  scoping_of_case name lits pattern body cs hc hsrc hd
+
+/-! ## Agreement of steel's matcher / instantiator with the R7RS ones (towards `hygiene_partial`)
+
+`InstantiateSpec` is the full statement (kept visible, NOT proved): for every well-formed pattern list and every
+template whose pattern variables occur at their binding ellipsis depth with one ellipsis per list, steel's
+`collect_bindings` + `ReplaceExpressions` and the R7RS `specMatch` + `specInst` produce the same form up to the
+expander flags.  Proved (`match_spec`, `instantiate_spec_partial`): ALL well-formed patterns (any nesting, literals, constants,
+one ellipsis per list over any sub-pattern, dotted tails; no wildcard variable, as `PatOK` requires), templates
+of the fragment `okT` (any nesting, improper lists, every ellipsis
+follows an identifier, at most one ellipsis per list).  The instantiator half `inst_agree` (LemmasSpec2) is
+proved for ALL bindings that agree (`BindAgree`), including variables bound under one ellipsis and spliced with
+`x ...`; what is missing for the full statement is sub-templates followed by an ellipsis (`(k v) ...`,
+`findWidth` / `iterEnv` vs the drivers of `specInst`).  Outside `TemplateOK` the real code deviates from R7RS:
+two ellipses in one list (`not_hygiene_j`, finding K13j), a variable under extra ellipses (K13f). -/
+
+/-- template well-formedness of the full statement: exact ellipsis depths, at most one ellipsis per list -/
+def TemplateOK (ds : List (Name × Nat)) (t : Sexp) : Bool :=
+  !depthMismatch ds (2 * t.size + 2) 0 t && !twoEll t
+
+/-- The full agreement statement (not proved; see above). -/
+def InstantiateSpec : Prop :=
+  ∀ (sc : List Name) (c : ICtx) (ps : List Pat) (ds : List (Name × Nat)) (xs : List Sexp) (imp : Bool) (env : Env),
+    PatOK ps → userForm (.list xs imp) → (∀ k ∈ Sexp.idsList xs, k ∉ Pat.varsList ps) →
+    matchP sc ps xs imp = some env →
+    ∃ sb, specMatchList (litEqOf sc) ps xs imp = some sb ∧
+      ∀ (t : Sexp), TemplateOK ds t = true → (∀ v ∈ Pat.varsList ps, (lookupDepth ds v).isSome) → noHashAtoms c t →
+        ∀ (n n' : Nat) (r r' : Sexp),
+          visit n c env [] t = .ok r → specInst n' sb t = .ok r' → r.unmark = r'.unmark
+
+/-- `match_spec` (matcher half): for EVERY well-formed pattern list (`PatOK`: what `parse_from_list` produces) —
+variables, literals, constants, nested lists, one ellipsis per list over ANY sub-pattern (so binding trees of any
+depth), dotted tails — whenever
+steel's `match_list_pattern` + `collect_bindings` succeed on a user form, the R7RS matcher `specMatchList`
+succeeds, binds exactly the pattern variables, and steel's binding of each variable is the nested-list form
+(`BTree.flat`) of its R7RS binding tree, whose leaves are sub-forms of the use. -/
+theorem match_spec (sc : List Name) (ps : List Pat) (xs : List Sexp) (imp : Bool) (env : Env)
+    (hp : PatOK ps) (hmr : isManyRest ps = false) (hnw : wildcard ∉ Pat.varsList ps)
+    (hu : userForm (.list xs imp)) (hm : matchP sc ps xs imp = some env) :
+    ∃ sb, specMatchList (litEqOf sc) ps xs imp = some sb ∧ Agrees (fun _ => True) (Pat.varsList ps) env {} sb :=
+  match_agree sc ps xs imp env (fun _ => True) (fun _ _ _ _ _ => trivial) (fun _ _ _ _ _ => trivial) trivial
+    hp.1 hmr hp.2.1 hnw hu.2.2 hu.1 hm
+
+/-- `instantiate_spec_partial`: matcher + instantiator agreement for all well-formed patterns (`match_spec`)
+and templates of the fragment `okT` (any nesting, improper lists, every ellipsis follows an
+identifier — a variable bound under one ellipsis is spliced —, at most one ellipsis per list): whenever both
+instantiators succeed the results are equal up to the expander flags.  Both sides are run on the same pattern
+and template (the correspondence `##a` / `a` of the stored vs the written template is not part of this statement). -/
+theorem instantiate_spec_partial (sc : List Name) (c : ICtx) (ps : List Pat) (xs : List Sexp) (imp : Bool) (env : Env)
+    (hp : PatOK ps) (hmr : isManyRest ps = false) (hnw : wildcard ∉ Pat.varsList ps)
+    (hu : userForm (.list xs imp)) (hdisj : ∀ k ∈ Sexp.idsList xs, k ∉ Pat.varsList ps)
+    (hm : matchP sc ps xs imp = some env) :
+    ∃ sb, specMatchList (litEqOf sc) ps xs imp = some sb ∧
+      ∀ (t : Sexp), okT t = true → noHashAtoms c t →
+        ∀ (fb : Bindings) (n n' : Nat) (r r' : Sexp),
+          visit n c env fb t = .ok r → specInst n' sb t = .ok r' → r.unmark = r'.unmark :=
+  instantiate_spec_frag sc c ps xs imp env hp.1 hmr hp.2.1 hnw hu.2.2 hu.1 hu.2.1 hdisj hm
+
+/-- `instantiate_agree` (instantiator half, all agreeing bindings): whenever both instantiators succeed on a
+template of the fragment `okT` under bindings that agree — including variables bound under an ellipsis (a node of
+leaves in S, the list of the matched forms in M) spliced with `x ...` — the results are equal up to the flags. -/
+theorem instantiate_agree (c : ICtx) (env : Env) (fb : Bindings) (senv : SBind) (hcv : CleanVals c env)
+    (n : Nat) (t r : Sexp) (n' : Nat) (r' : Sexp) (hM : visit n c env fb t = .ok r) (hS : specInst n' senv t = .ok r')
+    (hok : okT t = true) (hba : BindAgree env senv t) (hnh : noHashAtoms c t) : r.unmark = r'.unmark :=
+  inst_agree c env fb senv hcv n t r n' r' hM hS hok hba hnh
+
+/-- `(define-syntax m (syntax-rules () [(_ (a ...) (b ...)) (list a ... b ...)]))`, `(m (1 2) (3 4))` -/
+def witnessJ : Prog :=
+  { globals := [nm "list"],
+    forms := [defSyntax "m" [] [(lst [sx "_", lst [sx "a", Sexp.ell], lst [sx "b", Sexp.ell]],
+        lst [sx "list", sx "a", Sexp.ell, sx "b", Sexp.ell])],
+      lst [sx "m", lst [.int 1, .int 2], lst [.int 3, .int 4]]] }
+
+/-- ¬`G.j`: a template list with two ellipses — only the first is expanded (finding K13j). -/
+theorem not_hygiene_j : (classify 40 witnessJ).j = true ∧ hygienicAt 40 witnessJ = false := by decide +kernel
+
 /-! ### Non-vacuity of the positive theorems -/
 
 /-- the case of `or2`: pattern `(_ a b)`, template `(let ((tmp a)) (if tmp tmp b))` -/
@@ -530,6 +632,14 @@ example : (match compileCase (nm "or2") [] or2Pattern or2Body with
              (lst [.kw .let_, lst [lst [.id (nm "tmp").hash .plain, .bool false]],
                    lst [.kw .if_, .id (nm "tmp").hash .plain, .id (nm "tmp").hash .plain, sx "tmp"]])
          | .error _ => false)
+    | .error _ => false) = true := by decide
+
+/-- `scoping_under_Gd` on `or2`: flag `d` is not raised, the free `##`-names of the stored template
+`(let ((##tmp ##a)) (if ##tmp ##tmp ##b))` are the pattern variables `##a`, `##b` -/
+example : (match compileCase (nm "or2") [] or2Pattern or2Body with
+    | .ok cs => cs.sflags.d == false &&
+        freeOcc (2 * or2Body.size + 2) [] cs.body == [(nm "a").hash, (nm "b").hash] &&
+        cs.depths.map (·.1) == [nm "b", nm "a"]
     | .error _ => false) = true := by decide
 
 /-- `uses-list`: template `(list a a)`; `list` is a free identifier of the stored template -/
@@ -560,5 +670,34 @@ example : ∀ x ∈ insideGNested.forms, srcForm x := by decide
 /-- `user_form_meaning_unchanged`: `(lambda (tmp) tmp)` placed under the template binder `##tmp` -/
 example : noHash (lst [.kw .lambda, lst [sx "tmp"], sx "tmp"]) ∧
     userEntries [{ name := (nm "tmp").hash, lvl := 0, intro := true }] = [] := by decide
+
+/-- `instantiate_spec_partial`: pattern `(c (x y ...) 5)` (nested, ellipsis, constant), form `(#t (1 (2 3) 4) 5)`,
+template `(if c (list x y ... . x) (x))` — all hypotheses hold -/
+example : PatOK [.var (nm "c"), .nested [.var (nm "x"), .many (.var (nm "y"))], .cint 5] ∧
+    isManyRest [.var (nm "c"), .nested [.var (nm "x"), .many (.var (nm "y"))], .cint 5] = false ∧
+    wildcard ∉ Pat.varsList [.var (nm "c"), .nested [.var (nm "x"), .many (.var (nm "y"))], .cint 5] ∧
+    userForm (lst [.bool true, lst [.int 1, lst [.int 2, .int 3], .int 4], .int 5]) ∧
+    (matchP [] [.var (nm "c"), .nested [.var (nm "x"), .many (.var (nm "y"))], .cint 5]
+      [.bool true, lst [.int 1, lst [.int 2, .int 3], .int 4], .int 5] false).isSome = true ∧
+    okT (lst [.kw .if_, sx "c", .list [sx "list", sx "x", sx "y", Sexp.ell, sx "x"] true, lst [sx "x"]]) = true := by
+  decide
+
+/-- `match_spec` with an ellipsis and a dotted tail: `(a b ... . r)` on `(1 2 3 . 4)` -/
+example : PatOK [.var (nm "a"), .many (.var (nm "b")), .rest (.var (nm "r"))] ∧
+    isManyRest [.var (nm "a"), .many (.var (nm "b")), .rest (.var (nm "r"))] = false ∧
+    wildcard ∉ Pat.varsList [.var (nm "a"), .many (.var (nm "b")), .rest (.var (nm "r"))] ∧
+    userForm (.list [.int 1, .int 2, .int 3, .int 4] true) ∧
+    (matchP [] [.var (nm "a"), .many (.var (nm "b")), .rest (.var (nm "r"))] [.int 1, .int 2, .int 3, .int 4] true).isSome = true ∧
+    (match specMatchList (litEqOf []) [.var (nm "a"), .many (.var (nm "b")), .rest (.var (nm "r"))] [.int 1, .int 2, .int 3, .int 4] true with
+     | some sb => (match sb.get (nm "b"), sb.get (nm "r") with
+                   | some (.node [.leaf (.int 2), .leaf (.int 3)]), some (.leaf (.int 4)) => true
+                   | _, _ => false)
+     | none => false) = true := by decide
+
+/-- `instantiate_agree` with an ellipsis: `a ↦ (1 2)` in M, `a ↦ node [leaf 1, leaf 2]` in S, template `(f a ... 0)` -/
+example : (match visit 5 {} { b := [(nm "a", lst [.int 1, .int 2])], many := [nm "a"] } [] (lst [sx "f", sx "a", Sexp.ell, .int 0]),
+      specInst 5 [(nm "a", .node [.leaf (.int 1), .leaf (.int 2)])] (lst [sx "f", sx "a", Sexp.ell, .int 0]) with
+    | .ok r, .ok r' => r.unmark == r'.unmark && r' == lst [sx "f", .int 1, .int 2, .int 0]
+    | _, _ => false) = true ∧ okT (lst [sx "f", sx "a", Sexp.ell, .int 0]) = true := by decide
 
 end SteelVerif.C13
